@@ -1220,7 +1220,18 @@ fn replay_tour(
         rep.issue("C01", "shift-end-location", format!("tour {ti}: closed shift but the tour has no arrival activity"));
     }
     if customer_activities == 0 {
+        // what the tour holds instead of a job decides the finding: nothing at all, or only conditional stops
+        let mut kinds: Vec<&str> = stops
+            .iter()
+            .flat_map(|s| s["activities"].as_array().into_iter().flatten())
+            .filter_map(|a| a["type"].as_str())
+            .filter(|t| !matches!(*t, "departure" | "arrival"))
+            .collect();
+        kinds.sort();
+        kinds.dedup();
+        let saved = std::mem::replace(&mut rep.cur_ctx, if kinds.is_empty() { "empty".to_string() } else { format!("only:{}", kinds.join("+")) });
         rep.issue("C02", "tour-without-job", format!("tour {ti} ({vid}/{si}) serves no job"));
+        rep.cur_ctx = saved;
     }
     rep.tour_jobs.push((vid.to_string(), si, tour_job_ids.clone()));
 
